@@ -223,24 +223,46 @@ ODS_NS = [
     ("xmlns:table", "urn:oasis:names:tc:opendocument:xmlns:table:1.0"),
     ("xmlns:text", "urn:oasis:names:tc:opendocument:xmlns:text:1.0"),
     ("xmlns:calcext", "urn:org:documentfoundation:names:experimental:calc:xmlns:calcext:1.0"),
+    ("xmlns:draw", "urn:oasis:names:tc:opendocument:xmlns:drawing:1.0"),
+    ("xmlns:dr3d", "urn:oasis:names:tc:opendocument:xmlns:dr3d:1.0"),
+    ("xmlns:svg", "urn:oasis:names:tc:opendocument:xmlns:svg-compatible:1.0"),
+    ("xmlns:xlink", "http://www.w3.org/1999/xlink"),
     ("xmlns:dc", "http://purl.org/dc/elements/1.1/"),
     ("office:version", "1.2"),
 ]
 
-def ods_bytes(cells, rng=None, sheet_name="S"):
+def ods_bytes(cells, rng=None, sheet_name="S", pretty=None):
     """cells: list of (cell name, attrs, events after the cell's Start up to and including its
-    End), one per row in column A; column B holds the sentinel string "|".  No white space
-    between the elements of a row (ods.rs read_row rejects it)."""
-    ev = [S("office:document-content", ODS_NS), S("office:body"), S("office:spreadsheet"),
-          S("table:table", [("table:name", sheet_name)])]
+    End), one per row in column A; column B holds the sentinel string "|".
+    pretty (default: drawn from rng, half of the files): the file is indented the way a
+    pretty-printing writer does it — white space between the elements of office:spreadsheet, of
+    the table, of every row (before, between and after its cells, with an occasional comment) and
+    inside the sentinel cell.  What stands inside the test cells is the caller's (their events
+    come from the Coq encoder, indentation included)."""
+    if pretty is None:
+        pretty = rng is not None and rng.random() < 0.5
+    def ws(level):
+        if not pretty:
+            return []
+        if rng is not None and rng.random() < 0.05:
+            return []                                   # an indenting writer may skip a place
+        w = "\n" + " " * (2 * level) if (rng is None or rng.random() < 0.9) else "\r\n\t"
+        return [T(w)] + ([O, T(w)] if (rng is not None and rng.random() < 0.04) else [])
+    ev = [S("office:document-content", ODS_NS)] + ws(1) + [S("office:body")] + ws(2) + \
+         [S("office:spreadsheet")] + ws(3) + [S("table:table", [("table:name", sheet_name)])]
     for cname, attrs, cev in cells:
+        ev += ws(4)
         ev.append(S("table:table-row"))
+        ev += ws(5)
         ev.append(S(cname, attrs))
         ev.extend(cev)
-        ev += [S("table:table-cell", [("office:value-type", "string")]), S("text:p"), T("|"),
-               E("text:p"), E("table:table-cell")]
+        ev += ws(5)
+        ev += [S("table:table-cell", [("office:value-type", "string")])] + ws(6) + [S("text:p"), T("|"),
+               E("text:p")] + ws(5) + [E("table:table-cell")]
+        ev += ws(4)
         ev.append(E("table:table-row"))
-    ev += [E("table:table"), E("office:spreadsheet"), E("office:body"), E("office:document-content")]
+    ev += ws(3) + [E("table:table")] + ws(2) + [E("office:spreadsheet")] + ws(1) + [E("office:body")] + \
+          ws(0) + [E("office:document-content")]
     content = serialise(ev, rng)
     manifest = ('<?xml version="1.0" encoding="UTF-8"?>'
                 '<manifest:manifest xmlns:manifest="urn:oasis:names:tc:opendocument:xmlns:manifest:1.0" manifest:version="1.2">'
